@@ -2,6 +2,7 @@ import SphericalVerif.Props.C09
 import SphericalVerif.Props.HKernel
 import SphericalVerif.Props.GenH
 import SphericalVerif.Props.GenHorner
+import SphericalVerif.Props.Footprint
 #print axioms C09.objd_pure
 #print axioms C09.objD_pure
 #print axioms C09.objY_pure
@@ -19,3 +20,17 @@ import SphericalVerif.Props.GenHorner
 #print axioms GenH.genH_size_indep
 #print axioms GenH.tabOK_ranges
 #print axioms GenHorner.gen_evaluate_row
+#print axioms Footprint.step3_only
+#print axioms Footprint.step1_only
+#print axioms Footprint.step2_only
+#print axioms Footprint.step4_only
+#print axioms Footprint.step5_only
+#print axioms Footprint.fill_d_only
+#print axioms Footprint.fill_D_only
+#print axioms Footprint.fill_sYlm_only
+#print axioms Footprint.euler_only
+#print axioms Footprint.cpow_only
+#print axioms Footprint.evalH_only
+#print axioms Footprint.rotH_only
+#print axioms Footprint.wigner_H_only
+#print axioms Footprint.gen_D_chain_inplace
